@@ -18,6 +18,8 @@ That pack() of the result is the encoding of those values is C02 / C05.
 
 Round 4: (C19-prototype-snapshot) as_prototype takes a new snapshot per request;
 (C19-defaults-copied-whole) no field-wise copy protocol on Packet.
+
+Round 5: the prototype replaced by the class itself on a path chosen by == (field values only).
 """
 import ast
 
